@@ -153,9 +153,16 @@ pub trait BlsSignatureProof:
     ) -> BlsResult<()> {
         if let Some(tt) = timeout_ms {
             let now = SystemTime::now();
-            let since = UNIX_EPOCH + Duration::from_millis(t);
-            let elapsed = now.duration_since(since).unwrap().as_millis() as u64;
-            if elapsed > tt {
+            let since = UNIX_EPOCH
+                .checked_add(Duration::from_millis(t))
+                .ok_or(BlsError::InvalidProof)?;
+            // A timestamp ahead of the local clock (clock skew or a hostile value)
+            // is an invalid proof, not a reason to abort
+            let elapsed = now
+                .duration_since(since)
+                .map_err(|_| BlsError::InvalidProof)?
+                .as_millis();
+            if elapsed > u128::from(tt) {
                 return Err(BlsError::InvalidProof);
             }
         }
